@@ -373,7 +373,13 @@ func (ef *Filter) filterField(ctx context.Context, v reflect.Value, filterOverri
 				break
 			}
 		}
-		opt = append(opt[:removeIdx], opt[removeIdx+1:]...)
+		// build a new list instead of deleting in place: opt shares its
+		// backing array with the caller's options, and whatever is appended
+		// further down would otherwise land in the caller's list.
+		stripped := make([]Option, 0, len(opt))
+		stripped = append(stripped, opt[:removeIdx]...)
+		stripped = append(stripped, opt[removeIdx+1:]...)
+		opt = stripped
 	}
 
 	for i := 0; i < v.Type().NumField(); i++ {
@@ -478,8 +484,10 @@ func (ef *Filter) filterField(ctx context.Context, v reflect.Value, filterOverri
 				// okay, we've dealt with the "Taggable" things, let's check for other
 				// fields that need to be filtered, but be sure to ignore taggable
 				// on the next recursion or will be in an infinite loop
-				opt = append(opt, withIgnoreTaggable())
-				if err := ef.filterField(ctx, field, filterOverrides, tm, opt...); err != nil {
+				// (the option is for this recursion only: the fields which
+				// follow must not inherit it)
+				ignoreTaggable := append(opt[:len(opt):len(opt)], withIgnoreTaggable())
+				if err := ef.filterField(ctx, field, filterOverrides, tm, ignoreTaggable...); err != nil {
 					return fmt.Errorf("%s: %w", op, err)
 				}
 			} else {
